@@ -262,6 +262,33 @@ func (p c12) stream(c *core.C, cs c12Stream) {
 		check("NewHasherReader", []*hashio.Hasher{h2}, []string{a}, false)
 		c.Cover("stream:single-reader")
 	}
+	// the plain constructors
+	for _, a := range c12Algos {
+		hh, err := hashio.GetHash(a)
+		if err != nil || hh == nil {
+			c.Failf("GetHash(%s): %v", a, err)
+			continue
+		}
+		hh.Write(data)
+		if !bytes.Equal(hh.Sum(nil), digest(a, data)) {
+			c.Failf("GetHash(%s) does not compute %s", a, a)
+		}
+		nh, err := hashio.NewHasher(a)
+		if err != nil || nh == nil || nh.Name() != a || nh.Size() != 0 {
+			c.Failf("NewHasher(%s) = %+v, %v", a, nh, err)
+			continue
+		}
+		nh.Write(data)
+		if nh.Size() != int64(len(data)) || !bytes.Equal(nh.Sum(nil), digest(a, data)) {
+			c.Failf("NewHasher(%s): size %d digest %x for a %d-byte stream", a, nh.Size(), nh.Sum(nil), len(data))
+		}
+	}
+	if _, err := hashio.GetHash("sha384"); err == nil {
+		c.Failf("GetHash accepted the unknown algorithm sha384")
+	}
+	if h, err := hashio.NewHasher("SHA256"); err == nil || h != nil {
+		c.Failf("NewHasher accepted the unknown algorithm name SHA256")
+	}
 	// unknown algorithm names
 	for _, bad := range []string{"sha384", "MD5", "", "sha-256", "crc32"} {
 		if _, _, err := hashio.NewHasherWriters(append(append([]string{}, cs.Algos...), bad), io.Discard); err == nil {
